@@ -178,8 +178,8 @@ def run(prop, tier, seed):
                            'pattern part and full-domain symbolic days / nanoseconds / offset; zero_padded, zero_padded_i and alloc::fmt::format '
                            'are replaced by recording stubs (-Z stubbing) and the calendar getters by arbitrary in-range values, and the row '
                            'assertion states which value is rendered at which width in which order. Complete per row (no loop, no bound); '
-                           'quick tier leaves out the s rows (about 200 s each; they run in the thorough tier). NOT covered: rendered digits, the sign / colon / Q / ordinal glue produced by format!, yy, qqq/qqqq, the s dispatch and the n rows '
-                           '(CBMC did not finish), the tokenizer and the assembly in format().',
+                           'quick tier leaves out the s rows (about 200 s each; they run in the thorough tier). Outside the rows: rendered digits, the sign / colon / Q / ordinal glue produced by format!, yy, qqq/qqqq and the n rows '
+                           '(decided by the Verus unit fmt of this check instead); the tokenizer and the assembly in format() (not covered by either engine).',
             'evaluations': len(rows), 'distinct_nontrivial': len(ok_rows),
             'rule': 'one evaluation = one harness (symbol x width); non-trivial = the row assertion and every check located in src/ or the harness is SUCCESS',
             'samples': samples or [{'note': 'no rows'}],
